@@ -2,7 +2,7 @@
    Directives: ExtrOcamlBasic only. *)
 Require Extraction.
 Require Import ExtrOcamlBasic.
-From OrdV Require Import Base.Prelude Server.Content.
+From OrdV Require Import Base.Prelude Server.Content Server.Api.
 Cd "../extract/gen".
-Extraction "x_server.ml" run_C19.
+Extraction "x_server.ml" run_C19 run_C18.
 Cd "../../coq".
